@@ -24,6 +24,10 @@ DIRECTED = [
     ("SequOOL", {"params": {"n": 100}, "kind": "binary", "d": 1, "T": 20, "queries": 0}),
     ("GPO", {"params": {"base": "T_HOO", "numax": 1.0, "rhomax": 0.99, "rounds": 100}, "kind": "binary", "d": 2, "T": 20}),  # K4
     ("PCT", {"params": {"base": "HCT", "numax": 1.0, "rhomax": 0.9, "rounds": 100}, "kind": "binary", "d": 2, "T": 100}),
+    ("GPO", {"params": {"base": "HCT", "numax": 1.0, "rhomax": 0.3, "rounds": 100}, "kind": "binary", "d": 1, "T": 100}),    # one phase (N = 1): fine
+    ("VPCT", {"params": {"base": "VHCT", "numax": 1.0, "rhomax": 0.2, "rounds": 300}, "kind": "kary", "K": 3, "d": 2, "T": 60}),
+    ("StroquOOL", {"params": {"n": 1000}, "kind": "binary", "d": 1, "T": 60}),
+    ("StroquOOL", {"params": {"n": 100}, "kind": "binary", "d": 1, "T": 100}),                                               # smaller budget after a larger one
 ]
 _explore = explore
 
